@@ -105,6 +105,39 @@ func TestVerifC02Status(t *testing.T) {
 		exec(202, kind)
 		exec(503, kind)
 	}
+	// the daemon's own time-out (no complete answer in time) is a transport failure, whatever had arrived by then:
+	// the request has normally reached the collector, carrying the data over would deliver it twice (seeded/C02f2)
+	stop := make(chan struct{})
+	slow := httptest.NewTLSServer(http.HandlerFunc(func(w http.ResponseWriter, r *http.Request) {
+		ioutil.ReadAll(r.Body)
+		s := cur.Load().(served)
+		if s.body == "headers-then-stall" {
+			w.Header().Set("Content-Length", "100000")
+			w.WriteHeader(s.code)
+			if f, ok := w.(http.Flusher); ok {
+				f.Flush()
+			}
+		}
+		<-stop
+	}))
+	ca2 := filepath.Join(dir, "ca2.pem")
+	ioutil.WriteFile(ca2, pem.EncodeToMemory(&pem.Block{Type: "CERTIFICATE", Bytes: slow.Certificate().Raw}), 0600)
+	quick, err := NewClient(&ClientConfig{CAFile: ca2, MaxParallel: 2, Timeout: 250 * time.Millisecond})
+	if err != nil {
+		t.Fatal(err)
+	}
+	shost := strings.TrimPrefix(slow.URL, "https://")
+	for _, sc := range []served{{0, "silent"}, {200, "headers-then-stall"}, {202, "headers-then-stall"}, {503, "headers-then-stall"}} {
+		cur.Store(sc)
+		cmd := RpmCmd{Name: CommandMetrics, Collector: shost, RunID: "12345", License: "0123456789012345678901234567890123456789",
+			MaxPayloadSize: 1000000}
+		cs := RpmControls{AgentLanguage: "php", AgentVersion: "1.2.3",
+			Collectible: CollectibleFunc(func(auditVersion bool) ([]byte, error) { return []byte(`["run",1,2,[]]`), nil })}
+		o := c02Class("timeout", sc.code, sc.body, quick.Execute(&cmd, cs))
+		obs = append(obs, o)
+	}
+	close(stop)
+	slow.Close()
 	b, _ := json.Marshal(obs)
 	if err := ioutil.WriteFile(outPath, b, 0644); err != nil {
 		t.Fatal(err)
